@@ -201,9 +201,40 @@ def C05(V, tier):
     V.assumptions += ["FlushBatch carries no content: the grammar is applied with B erased (DESIGN.md C05)"]
 
 
+def frontier_apalache(V, wd, budget=600):
+    """Thorough tier: Apalache shows IndInv of spec/apa/FrontierApa.tla inductive for UNBOUNDED integer
+    timestamps (3 upstream replicas): the frontier is the minimum of the replicas' latest watermarks, what goes
+    downstream never exceeds it and strictly increases.  Skipped with a note when it does not finish."""
+    import subprocess
+    from concurrent.futures import ThreadPoolExecutor
+    spec = os.path.join(SPEC, "apa", "FrontierApa.tla")
+    runs = [("base", ["--init=Init", "--inv=IndInv", "--length=0"]),
+            ("step", ["--init=IndInit", "--inv=IndInv", "--length=1"]),
+            ("implies_safe", ["--init=IndInit", "--inv=Safe", "--length=0"])]
+
+    def one(r):
+        name, args = r
+        out = os.path.join(wd, f"apa_{name}")
+        p = subprocess.run(["timeout", str(budget), "apalache-mc", "check"] + args + [f"--out-dir={out}", spec],
+                           stdout=subprocess.PIPE, stderr=subprocess.STDOUT, text=True, cwd=wd)
+        m = [ln for ln in p.stdout.splitlines() if "The outcome is:" in ln]
+        got = m[0].split("The outcome is:")[1].split()[0] if m else ("Timeout" if p.returncode == 124 else "Failed")
+        return {"obligation": name, "outcome": got}
+    with ThreadPoolExecutor(max_workers=3) as ex:
+        res = list(ex.map(one, runs))
+    V.coverage["apalache_frontier"] = res
+    for r in res:
+        if r["outcome"] in ("Timeout", "Failed"):
+            V.assumptions.append(f"Apalache obligation {r['obligation']} did not complete ({r['outcome']}): skipped")
+        elif r["outcome"] != "NoError":
+            raise ToolError(f"Apalache obligation {r['obligation']} of spec/apa/FrontierApa.tla: {r['outcome']} (model level)")
+
+
 def C06(V, tier):
     wd = workdir("C06")
     start_model(V, wd, tier, ["Start_quick"] if tier == "quick" else ["Start_quick", "Start_thorough"])
+    if tier != "quick":
+        frontier_apalache(V, wd)
     start_replay(V, wd, tier, ["C06"])
     # the timestamp-aware operators: window managers / WindowOperator (late results)
     import prop_windows
